@@ -430,6 +430,34 @@ func runC03(c *Ctx) {
 				syms := refTo5(append([]byte{ver}, randBytes(r, hl)...), 0)
 				body := refCashString(pfx, syms)
 				decodeCash(c, pfx+":"+body) // the valid string itself is accepted
+				if typ == 0 { // substitution by the other-case form of a letter (one to four letters), white space at the ends
+					seenL := map[byte]bool{}
+					var lp []int
+					for i := 0; i < len(body); i++ {
+						if ch := body[i]; ch >= 'a' && ch <= 'z' && !seenL[ch] {
+							seenL[ch] = true
+							lp = append(lp, i)
+						}
+					}
+					for w := 1; w <= 4 && w <= len(lp); w++ {
+						b := []byte(body)
+						for _, j := range r.Perm(len(lp))[:w] {
+							b[lp[j]] -= 32
+						}
+						decodeCash(c, pfx+":"+string(b))
+					}
+					if hl == 20 {
+						for _, i := range lp {
+							b := []byte(body)
+							b[i] -= 32
+							decodeCash(c, pfx+":"+string(b))
+						}
+						for _, w := range wsWraps(pfx + ":" + body) {
+							decodeCash(c, w)
+						}
+						decodeCash(c, pfx+":"+body[:len(body)-1]+" ")
+					}
+				}
 				// every single substitution inside the checksum and (sampled) the payload:
 				// a remainder compared on fewer than 40 bits shows up here
 				if (hl == 20 && typ == 0) || c.Thorough() {
@@ -546,6 +574,15 @@ func runC03(c *Ctx) {
 		}
 		if k%8 == 0 { // substitutions by characters that Unicode case mapping folds onto letters of the string
 			b32Lookalikes(c, s)
+		}
+		if k%10 == 0 { // substitutions by the other-case form of a letter, by white space at either end
+			b32CaseFlips(c, s)
+			for _, w := range wsWraps(s) {
+				b32dec(c, w)
+			}
+			b32dec(c, s[:len(s)-1]+" ")
+			b32dec(c, s[:len(s)-2]+"p ")
+			b32dec(c, " "+s[1:])
 		}
 		m := []byte(s)
 		dl := len(m) - len(hrp) - 1
